@@ -48,9 +48,11 @@ class CSemantics:
             self.intptr_type
         ):
             self.size_t_type = self.int_type
+            self.sizeof_type = self.get_type(["unsigned", "int"])
         else:
             # TODO: this might be 4 bytes on LP64 mode:
             self.size_t_type = self.long_type
+            self.sizeof_type = self.get_type(["unsigned", "long"])
 
         # Working variables:
         self.compounds = []
@@ -1006,7 +1008,8 @@ class CSemantics:
 
     def on_sizeof(self, typ, location):
         """Handle sizeof contraption"""
-        expr = expressions.Sizeof(typ, self.size_t_type, False, location)
+        # The result of sizeof has an unsigned type (size_t):
+        expr = expressions.Sizeof(typ, self.sizeof_type, False, location)
         return expr
 
     def on_cast(self, to_typ, casted_expr, location):
